@@ -3,8 +3,14 @@
    Connector.v: an endpoint that is dialled never answers (C20: "an untrusted FURL cannot stall or crash").
    A hint is characterised only by what happens when it is considered -- ANY behaviour, per hint:
      HPending          get_endpoint gave an endpoint and endpoint.connect() returned a Deferred that has not fired
+     HWaiting          get_endpoint's Deferred has NOT fired when the reactor is idle: the handler is waiting for something
+                       (a Tor handler whose Tor is starting: TorState.Waiting).  The Deferred sits in pendingConnections,
+                       the hint is NOT in validHints, its status is what get_endpoint / the handler last set
      HConnectFails e   get_endpoint gave an endpoint, endpoint.connect() raised / failed at once with e
      HRaises e         get_endpoint's Deferred failed with e (InvalidHintError, or whatever the handler raised)
+   What happens AFTER connect() has returned is the late phase at the end of this file: a waiting hint's Deferred fires, a
+   pending endpoint.connect() fails, the connect timer fires (connectionTimedOut -> shutdown -> cancel -> _connectionFailed
+   -> failed).
    Definitions only; proofs in ConnectAllProofs.v.  Tie: shape facts of connectToAll / _connectionFailed /
    checkForFailure / failed (translate/g_furl.py) and a correspondence with real TubConnectors (harness/c20.py). *)
 From Coq Require Import ZArith List String Bool.
@@ -13,10 +19,12 @@ Require Import Verif.lib.PyLite.
 Local Open Scope Z_scope.
 
 Definition hstr := list Z.
-Inductive houtcome := HPending | HConnectFails (e : string) | HRaises (e : string).
+Inductive houtcome := HPending | HWaiting | HConnectFails (e : string) | HRaises (e : string).
 
 (* ConnectionInfo status of a hint *)
-Inductive hstatus := SConnecting | SBadHint | SFailed | SRefused | SAbandoned.
+(* SResolving: any status set before the hint's Deferred fires ("resolving hint" by get_endpoint, then whatever the
+   handler reports through update_status: "connecting to a Tor", "launching Tor" ...) *)
+Inductive hstatus := SConnecting | SBadHint | SFailed | SRefused | SAbandoned | SResolving.
 
 Record cas := {
   remaining : list hstr;            (* self.remainingLocations, next to be popped FIRST (the Python list reversed) *)
@@ -75,9 +83,15 @@ Definition add_pending (h : hstr) (s : cas) : cas :=
   {| remaining := remaining s; attempted := attempted s; valid := valid s; pending := h :: pending s;
      statuses := statuses s; reason := reason s; active := active s; failed_calls := failed_calls s |}.
 
+(* get_endpoint's _update_status("resolving hint") / the handler's update_status, for a hint whose Deferred does not fire *)
+Definition resolving (h : hstr) (s : cas) : cas :=
+  {| remaining := remaining s; attempted := attempted s; valid := valid s; pending := pending s;
+     statuses := (h, SResolving) :: statuses s; reason := reason s; active := active s; failed_calls := failed_calls s |}.
+
 Definition consider (beh : hstr -> houtcome) (h : hstr) (s : cas) : cas :=
   match beh h with
   | HPending => add_pending h (good_hint h s)
+  | HWaiting => add_pending h (resolving h s)
   | HConnectFails e => connection_failed e h (good_hint h s)
   | HRaises e => connection_failed e h s
   end.
@@ -98,8 +112,9 @@ Fixpoint connect_loop (beh : hstr -> houtcome) (l : list hstr) (s : cas) : cas :
 (* TubConnector.connect() for the hints in the order in which connectToAll pops them (the FURL's hints reversed) *)
 Definition connect_all (beh : hstr -> houtcome) (hints : list hstr) : cas := connect_loop beh hints (init hints).
 
-Definition is_pending (o : houtcome) : bool := match o with HPending => true | _ => false end.
-(* the `usable` flag of Connector.v's GetRef event *)
+(* the hint's Deferred stays in pendingConnections: an endpoint is being dialled, or the handler is still waiting *)
+Definition is_pending (o : houtcome) : bool := match o with HPending | HWaiting => true | _ => false end.
+(* the `usable` flag of Connector.v's GetRef event: some hint is being dialled or waited for when connect() returns *)
 Definition usable (beh : hstr -> houtcome) (hints : list hstr) : bool := existsb (fun h => is_pending (beh h)) hints.
 
 (* the current status of a hint *)
@@ -107,11 +122,67 @@ Fixpoint status_of (h : hstr) (l : list (hstr * hstatus)) : option hstatus :=
   match l with [] => None | (x, st) :: l' => if list_eqb h x then Some st else status_of h l' end.
 
 Definition expected_status (o : houtcome) : hstatus :=
-  match o with HPending => SConnecting | HConnectFails e => classify e | HRaises e => classify e end.
+  match o with HPending => SConnecting | HWaiting => SResolving | HConnectFails e => classify e | HRaises e => classify e end.
 
 (* observation for the correspondence *)
-Definition st_code (s : hstatus) : Z := match s with SConnecting => 0 | SBadHint => 1 | SFailed => 2 | SRefused => 3 | SAbandoned => 4 end.
+Definition st_code (s : hstatus) : Z := match s with SConnecting => 0 | SBadHint => 1 | SFailed => 2 | SRefused => 3 | SAbandoned => 4 | SResolving => 5 end.
 Definition obs (s : cas) : list hstr * list hstr * Z * list (hstr * Z) * option string * bool * Z :=
   (rev (attempted s), rev (valid s), Z.of_nat (List.length (pending s)),
    map (fun h => (h, match status_of h (statuses s) with Some st => st_code st | None => -1 end)) (rev (attempted s)),
    reason s, active s, Z.of_nat (failed_calls s)).
+
+(* ================================================================== the late phase: after connect() has returned
+   Events, in any order and number:
+     LResolve h o   the Deferred of the WAITING hint h fires at last (the Tor came up / gave up): o = HPending (endpoint,
+                    connect() pending), HConnectFails e, HRaises e; (o = HWaiting: nothing happens)
+     LConnFail h e  the pending endpoint.connect() of the DIALLED hint h fails with e (refused later, timed out ...)
+     LTimeout       the connect timer fires: connectionTimedOut() = failureReason := NegotiationError; shutdown() [active :=
+                    False, remainingLocations := [], d.cancel() for every pending Deferred, which runs _remove and
+                    _connectionFailed(CancelledError / ConnectingCancelledError / whatever the Deferred's canceller fails
+                    it with: cx h) at once]; failed().  failed() cancels the timer, so it fires only on an active connector.
+   An event that cannot happen in the state (h not waiting / not dialled, connector not active) leaves it unchanged.
+   pendingConnections is a set: the order of the cancellations is the set's; the statuses of different hints do not depend on it. *)
+Definition remove_pending (h : hstr) (s : cas) : cas :=
+  {| remaining := remaining s; attempted := attempted s; valid := valid s;
+     pending := filter (fun x => negb (list_eqb h x)) (pending s);
+     statuses := statuses s; reason := reason s; active := active s; failed_calls := failed_calls s |}.
+
+Definition is_waiting (h : hstr) (s : cas) : bool := hmem h (pending s) && negb (hmem h (valid s)).
+Definition is_dialled (h : hstr) (s : cas) : bool := hmem h (pending s) && hmem h (valid s).
+
+Inductive lev := LResolve (h : hstr) (o : houtcome) | LConnFail (h : hstr) (e : string) | LTimeout.
+
+Fixpoint cancel_all (cx : hstr -> string) (l : list hstr) (s : cas) : cas :=
+  match l with
+  | [] => s
+  | h :: l' => cancel_all cx l' (connection_failed (cx h) h (remove_pending h s))
+  end.
+
+Definition timed_out (cx : hstr -> string) (s : cas) : cas :=
+  let s1 := {| remaining := []; attempted := attempted s; valid := valid s; pending := pending s; statuses := statuses s;
+               reason := Some "NegotiationError"%string; active := false; failed_calls := failed_calls s |} in
+  failed (cancel_all cx (pending s1) s1).
+
+Definition late_step (cx : hstr -> string) (s : cas) (ev : lev) : cas :=
+  match ev with
+  | LResolve h o =>
+      if is_waiting h s then
+        match o with
+        | HPending => good_hint h s
+        | HWaiting => s
+        | HConnectFails e => connection_failed e h (remove_pending h (good_hint h s))
+        | HRaises e => connection_failed e h (remove_pending h s)
+        end
+      else s
+  | LConnFail h e => if is_dialled h s then connection_failed e h (remove_pending h s) else s
+  | LTimeout => if active s then timed_out cx s else s
+  end.
+
+Definition run_late (cx : hstr -> string) (evs : list lev) (s : cas) : cas := fold_left (late_step cx) evs s.
+
+(* observation after each late event, for the correspondence *)
+Fixpoint late_trace (cx : hstr -> string) (evs : list lev) (s : cas) : list cas :=
+  match evs with [] => [] | ev :: evs' => let s' := late_step cx s ev in s' :: late_trace cx evs' s' end.
+
+(* the canceller of a Deferred that has none (every Deferred met here) fails it with CancelledError *)
+Definition cx_default : hstr -> string := fun _ => "CancelledError"%string.
